@@ -188,11 +188,12 @@ theorem unusedInfo_roundtrip (src : Str) (c : Collected) (t : TU) (h : t.TextOk 
 
 example : TU.TextOk ⟨[⟨"f<1>".toList, "u0.c".toList, 3, 13, true, false, false⟩], [⟨"g".toList, "u0.c".toList⟩]⟩ = true := by decide
 
-/-- **the two algorithms.**  On every program (list of translation units given by the effects of `parseTokens`) that satisfies
+/-- **the two algorithms, on the collected data** (text layer removed; the statement about what the driver and the code
+    execute is `unused_wp_equiv` below).  On every program (list of translation units given by the effects of `parseTokens`) that satisfies
     `UnusedHyp`, the `unusedFunction` findings of the in-memory algorithm (`CheckUnusedFunctions::check`) and of the build-dir
     algorithm (`analyseWholeProgram(buildDir)`) are the same set, and neither list has duplicates.
     `entry` = `Library::isentrypoint`, arbitrary. -/
-theorem unused_wp_equiv (entry : Str → Bool) (tus : List TU) (h : UnusedHyp tus = true) :
+theorem unused_collected_equiv (entry : Str → Bool) (tus : List TU) (h : UnusedHyp tus = true) :
     (∀ x, x ∈ unusedInMemory entry tus ↔ x ∈ unusedBuildDir entry tus)
     ∧ (unusedInMemory entry tus).Nodup ∧ (unusedBuildDir entry tus).Nodup := by
   have inv : Inv (allDecls tus) (finalMap tus) (tus.foldl collectTU ⟨[], []⟩) :=
@@ -286,6 +287,52 @@ theorem unused_dupname_counterexample :
       = [⟨"a.c".toList, 1, 13, "f".toList⟩]
     ∧ unusedBuildDir isMainName [⟨[⟨"f".toList, "a.c".toList, 1, 13, true, true, false⟩], []⟩, ⟨[⟨"f".toList, "b.c".toList, 3, 13, true, true, false⟩], []⟩]
       = [⟨"b.c".toList, 3, 13, "f".toList⟩] := by
+  constructor <;> decide +kernel
+
+/-- **the build-dir run through the text.**  The fold the driver executes (every translation unit's summary written as text into a
+    cache file, parsed, handled) collects exactly the text-free data. -/
+theorem unusedBuildDir_via_text (entry : Str → Bool) (tus : List TU) (ht : ∀ t ∈ tus, t.TextOk = true) :
+    unusedViaText entry tus = some (unusedBuildDir entry tus) := by
+  unfold unusedViaText collectViaText
+  rw [collectViaText_eq tus ⟨[], []⟩ ht]
+  rfl
+
+/-- **C22 for unusedFunction.**  `unusedViaText` = `analyseWholeProgram(settings, logger, buildDir)` on the written summaries,
+    `unusedInMemory` = `CheckUnusedFunctions::check`: same findings, no duplicates, for every program satisfying `UnusedHyp`
+    whose names / files are XML-safe (`TextOk`). -/
+theorem unused_wp_equiv (entry : Str → Bool) (tus : List TU) (h : UnusedHyp tus = true) (ht : ∀ t ∈ tus, t.TextOk = true) :
+    ∃ b, unusedViaText entry tus = some b ∧ (∀ x, x ∈ unusedInMemory entry tus ↔ x ∈ b)
+      ∧ (unusedInMemory entry tus).Nodup ∧ b.Nodup :=
+  ⟨_, unusedBuildDir_via_text entry tus ht, unused_collected_equiv entry tus h⟩
+
+/-- **the real cache file** (five whole-program summaries and the `CheckUnusedFunctions` summary in one file): the whole-program
+    handler and the unused-function handler each read their part and ignore the rest -/
+theorem realCacheFile_both (simp : Str → Str) (hash : Nat) (t : TUSummary) (u : TU) (h : t.Ok simp = true) (hu : u.TextOk = true)
+    (wp : WholeProgram) (src : Str) (c : Collected) :
+    fromBuildDir [storeAll simp hash t u] wp = some (addInMemory wp t)
+    ∧ collectFile src c (storeAll simp hash t u) = .ok (collectTU c u) :=
+  storeAll_both simp hash t u h hu wp src c
+
+/-- **main theorem on the real files**: for every list of (hash, whole-program summaries, unused-function summary), both
+    consumers of the build dir get exactly what the in-memory run has -/
+theorem wholeProgram_storage_independent_realFiles (simp : Str → Str) (l : List (Nat × TUSummary × TU))
+    (h : ∀ x ∈ l, x.2.1.Ok simp = true ∧ x.2.2.TextOk = true) :
+    fromBuildDir (l.map fun x => storeAll simp x.1 x.2.1 x.2.2) WholeProgram.empty = some (inMemory (l.map (·.2.1)))
+    ∧ collectFiles (l.map fun x => storeAll simp x.1 x.2.1 x.2.2) = .ok ((l.map (·.2.2)).foldl collectTU ⟨[], []⟩) :=
+  ⟨fromBuildDir_storeAll simp l WholeProgram.empty h, collectFiles_storeAll simp l ⟨[], []⟩ h⟩
+
+example : TUSummary.Ok id ⟨⟨[⟨"x.h:1:6".toList, "h".toList, 1, ⟨"b.c".toList, 2, 15⟩, "0".toList, 0, 0, 0, false, [⟨"b.c".toList, "note".toList, 3, 4⟩]⟩],
+      [⟨"x.h:1:6".toList, "h".toList, 1, ⟨"b.c".toList, 2, 15⟩, "x.h:1:20".toList, 1⟩]⟩,
+    ⟨[⟨"x.h:2:6".toList, 1, "p".toList, ⟨"a.c".toList, 2, 16⟩, 40⟩], []⟩,
+    [⟨"S".toList, "k.cpp".toList, "".toList, 1, 8, 77⟩], [⟨"x.h:1:6".toList, 1, "p".toList, ⟨"a.c".toList, 2, 16⟩, 0⟩], []⟩ = true := by decide
+
+/-- the clause "no '<' in declared names" of `UnusedHyp` is needed: `ab<1>` and `ab<2>` are one entry `a` of `mFunctions`
+    (`stripTemplateParameters`) but two entries of the build-dir map -/
+theorem unused_templatename_counterexample :
+    unusedInMemory isMainName [⟨[⟨"ab<1>".toList, "a.cpp".toList, 1, 6, false, false, false⟩, ⟨"ab<2>".toList, "a.cpp".toList, 2, 6, false, false, false⟩], []⟩]
+      = [⟨"a.cpp".toList, 1, 6, "a".toList⟩]
+    ∧ unusedBuildDir isMainName [⟨[⟨"ab<1>".toList, "a.cpp".toList, 1, 6, false, false, false⟩, ⟨"ab<2>".toList, "a.cpp".toList, 2, 6, false, false, false⟩], []⟩]
+      = [⟨"a.cpp".toList, 1, 6, "a".toList⟩, ⟨"a.cpp".toList, 2, 6, "a".toList⟩] := by
   constructor <;> decide +kernel
 
 /-- `staticFunction` exists only in memory (F20): `void g(void){}` used only inside its own C file -/
